@@ -37,6 +37,7 @@ MIN_REACH = {
     "disk_loads_compared": {"quick": 400, "thorough": 7000},
     "overwrites_applied": {"quick": 40, "thorough": 700},
     "failed_saves": {"quick": 25, "thorough": 400},
+    "older_session_reused": {"quick": 12, "thorough": 200},
     "unsynced_steps_before_first_save": {"quick": 25, "thorough": 400},
 }
 TIME_BUDGET = {"quick": 400, "thorough": 3400}
@@ -61,7 +62,7 @@ def cases(ctx):
             if op in ("save_merge", "save_fails") and mem_only:
                 op = "add_ds"
             st = {"op": op, "policy": rng.choice([None, None, True, False]), "version": rng.choice([0, 0, 0, 1, 2]),
-                  "new_session": rng.random() < 0.35}
+                  "new_session": rng.random() < 0.35, "reuse_old": rng.random() < 0.3}
             na, nb = rng.randint(1, 3), rng.randint(1, 2)
             st["a"] = rng.sample(A_VALS, na)
             st["b"] = rng.sample(B_VALS, nb)
@@ -130,6 +131,7 @@ def run_case(ctx, case):
     model = {}                 # coordinate tuple (in `dims` order) -> {var: value}
     axes = {"a": set(), "b": set()}
     h = xyzpy.Harvester(new_runner(0), data_name=data_name, engine=engine)
+    alive = [h]                # every session opened so far stays open (a long-lived object in another notebook)
     hist = []
     nviol = 0
 
@@ -246,8 +248,18 @@ def run_case(ctx, case):
             ctx.count("unsynced_steps_before_first_save")
         if (st["new_session"] or force_new) and not case["mem_only"]:
             h = xyzpy.Harvester(new_runner(ver), data_name=data_name, engine=engine)
+            alive.append(h)
             ctx.count("new_sessions")
             force_new = False
+        elif (st.get("reuse_old") and len(alive) > 1 and not case["mem_only"] and state["ever_saved"]
+              and op in ("combos", "cases", "add_ds", "save_fails")):
+            # an OLDER, still open Harvester harvests again after other sessions wrote to the file: its synced add
+            # re-loads the file first, so nothing the others added may be lost (its cached copy is stale by now)
+            h = alive[ctx.rng("old", istep, len(alive)).randrange(len(alive) - 1)]
+            alive.remove(h)
+            alive.append(h)
+            h.runner.resources = {"version": ver}
+            ctx.count("older_session_reused")
         else:
             h.runner.resources = {"version": ver}
         expanded = "c" in dims
@@ -328,6 +340,7 @@ def run_case(ctx, case):
                         xyzpy.save_merge_ds(new_ds, data_name, overwrite=policy, engine=engine)
                         desc = "save_merge_ds(%d points, overwrite=%s, v%d)" % (len(pts), policy, ver)
                         h = xyzpy.Harvester(new_runner(ver), data_name=data_name, engine=engine)
+                        alive.append(h)
                         ctx.count("new_sessions")
                 elif op == "drop_sel":
                     dim, labels = st["dim"], [l for l in st["labels"] if l in axes[st["dim"]]]
@@ -364,6 +377,7 @@ def run_case(ctx, case):
             ctx.count("conflicts_refused")
             if h is None:
                 h = xyzpy.Harvester(new_runner(ver), data_name=data_name, engine=engine)
+                alive.append(h)
             # memory and disk must be unchanged: judged below against the restored model
             h._vf_note = "after refused conflict"
             if op in ("combos", "ellipsis", "cases", "add_ds") and not case["mem_only"]:
@@ -376,9 +390,10 @@ def run_case(ctx, case):
         if sync and not expect_conflict and err is None and data_name is not None and os.listdir(tmp):
             state["ever_saved"] = True
         judge(op, synced=sync)
-    try:
-        if h is not None and h._full_ds is not None:
-            h._full_ds.close()
-    except Exception:
-        pass
+    for hh in alive + [h]:
+        try:
+            if hh is not None and hh._full_ds is not None:
+                hh._full_ds.close()
+        except Exception:
+            pass
     ctx.rmtree(tmp)
